@@ -16,6 +16,7 @@ structure Outcome where
   leaked : Nat            -- goroutines of the task still alive after the stop returned
   delivered : List Nat    -- per output of the pipeline: accepted points it had been handed when the stop returned
   nodeFailed : Bool       -- a node of the pipeline failed (its runF returned an error) during the run
+  crashed : Bool := false -- a goroutine of the task panicked (the daemon dies)
   deriving DecidableEq, Repr, Inhabited
 
 /-- Clause 1: the stop completes. -/
@@ -28,19 +29,24 @@ def allExited (o : Outcome) : Bool := o.leaked = 0
 (not demanded of a pipeline in which a node failed: there the property only asks for termination). -/
 def allDelivered (o : Outcome) : Bool := o.nodeFailed || o.delivered.all (fun d => d = o.accepted)
 
+/-- Clause 0: stopping a task never kills the daemon (a helper goroutine that outlives what it writes to —
+e.g. a timer sending on an edge that was closed under it — panics the whole process). -/
+def noCrash (o : Outcome) : Bool := !o.crashed
+
 /-- The property. -/
-def holds (o : Outcome) : Bool := stopCompletes o && allExited o && allDelivered o
+def holds (o : Outcome) : Bool := noCrash o && stopCompletes o && allExited o && allDelivered o
 
 /-- Name of the first clause that fails (for the driver's SPECFAIL line). -/
 def failingClause (o : Outcome) : Option String :=
-  if !stopCompletes o then some "stop-completes"
+  if !noCrash o then some "no-crash"
+  else if !stopCompletes o then some "stop-completes"
   else if !allExited o then some "all-goroutines-exit"
   else if !allDelivered o then some "accepted-points-delivered"
   else none
 
 theorem failingClause_none_iff (o : Outcome) : failingClause o = none ↔ holds o = true := by
   unfold failingClause holds
-  cases stopCompletes o <;> cases allExited o <;> cases allDelivered o <;> simp
+  cases noCrash o <;> cases stopCompletes o <;> cases allExited o <;> cases allDelivered o <;> simp
 
 /-! ### Inputs (what the check varies) and the recorded deviations (known findings)
 
